@@ -1,0 +1,13 @@
+//go:build verif
+
+package hijri
+
+// VerifMonthData exposes the loaded month table and the package switches to the
+// verification harness (build tag verif only).
+func VerifMonthData() (loaded bool, use bool, startDate [3]int, startJd int, endJd int, monthLen [][]int) {
+	use = useMonthData
+	if monthData == nil {
+		return false, use, startDate, 0, 0, nil
+	}
+	return true, use, monthData.StartDate, monthData.StartJd, monthData.EndJd, monthData.MonthLen
+}
